@@ -83,6 +83,36 @@ pub trait Check: Sync {
     fn coverage_extra(&self, _tier: Tier) -> Vec<(String, String)> {
         vec![]
     }
+    /// optional extra stage that runs after the sweep of the supervisor (e.g. the same enumeration at a reduced
+    /// bound under another executor); its findings are merged into the verdict and the evidence
+    fn post_run(&self, _tier: Tier) -> Option<PostRun> {
+        None
+    }
+}
+
+#[derive(Default)]
+pub struct PostRun {
+    pub coverage: Vec<(String, String)>,
+    /// (signature, detail, input text)
+    pub violations: Vec<(String, String, String)>,
+    pub machinery_errors: Vec<String>,
+    pub assumptions: Vec<String>,
+}
+
+/// result of an in-process run (no worker processes, no shared memory): used by executors that cannot map memory
+pub struct Inproc {
+    pub cases: u64,
+    pub evals: u64,
+    pub violations: Vec<(String, String, String)>,
+}
+
+/// run `f` with an in-process context
+pub fn inproc(id: &'static str, f: impl FnOnce(&mut Ctx)) -> Inproc {
+    install_panic_hook();
+    let mut ctx = Ctx::new(id, None, 0, Mode::Normal, Box::new(std::io::sink()));
+    f(&mut ctx);
+    let violations = ctx.violations.drain(..).map(|(sig, detail, d, _, _)| (sig, detail, d.text)).collect();
+    Inproc { cases: ctx.cnt.cases, evals: ctx.cnt.evals, violations }
 }
 
 // ------------------------------------------------------------------------------------------
@@ -1041,7 +1071,10 @@ pub fn supervisor_main(check: &dyn Check, tier: Tier) -> i32 {
         std::thread::sleep(Duration::from_millis(20));
     }
 
-    let agg = agg.lock().unwrap();
+    let agg: Agg = {
+        let mut guard = agg.lock().unwrap();
+        std::mem::take(&mut *guard)
+    };
     let exhaustive = !cap_hit && agg.units_done.len() as u64 == units && crashes == 0;
     if !cap_hit && (agg.units_done.len() as u64) < units && crashes == 0 && machinery_errors.is_empty() {
         machinery_errors.push(format!("only {} of {} units reported", agg.units_done.len(), units));
@@ -1054,6 +1087,26 @@ pub fn supervisor_main(check: &dyn Check, tier: Tier) -> i32 {
         }
     }
 
+    // optional second stage
+    let post = check.post_run(tier);
+    let mut agg = agg;
+    let mut post_cov: Vec<(String, String)> = vec![];
+    let mut post_assumptions: Vec<String> = vec![];
+    if let Some(p) = post {
+        for (sig, detail, text) in p.violations {
+            let e = agg.viol.entry(sig).or_insert((u64::MAX, 0, 0, String::new(), String::new(), String::new(), 0));
+            e.6 += 1;
+            if e.4.is_empty() {
+                e.0 = 0;
+                e.3 = "post-run stage".into();
+                e.4 = text;
+                e.5 = detail;
+            }
+        }
+        machinery_errors.extend(p.machinery_errors);
+        post_cov = p.coverage;
+        post_assumptions = p.assumptions;
+    }
     // violations vs known findings
     let known = load_known(&format!("{}/known_findings.txt", vdir));
     let mut new_viol = vec![];
@@ -1116,7 +1169,7 @@ pub fn supervisor_main(check: &dyn Check, tier: Tier) -> i32 {
     ev.push_str(&format!("  \"exhaustive\": {},\n", exhaustive));
     ev.push_str(&format!("  \"cap_hit\": {},\n", cap_hit));
     ev.push_str(&format!("  \"worker_crashes\": {},\n", crashes));
-    for (k, v) in check.coverage_extra(tier) {
+    for (k, v) in check.coverage_extra(tier).into_iter().chain(post_cov.into_iter()) {
         ev.push_str(&format!("  {}: {},\n", jstr(&k), jstr(&v)));
     }
     ev.push_str(&format!("  \"rule\": {},\n", jstr(&check.rule(tier))));
@@ -1148,6 +1201,7 @@ pub fn supervisor_main(check: &dyn Check, tier: Tier) -> i32 {
     ev.push_str("\n  ]\n },\n");
     ev.push_str(" \"assumptions\": [");
     let mut assumptions = check.assumptions(tier);
+    assumptions.extend(post_assumptions);
     assumptions.push("the enumeration is deterministic; VERIF_SEED is recorded but unused because nothing is random".into());
     if bits > 0 {
         assumptions.push("cases are merged on a 64-bit hash of their canonical byte form; a hash collision would silently skip one case".into());
